@@ -1,21 +1,38 @@
 #!/usr/bin/env python3
 """Confirm a seeded defect produced by a sub-agent and store it under /verif/seeded/<ID>-<x>/.
 
-usage: ingest_seed.py <ID> <x> <test paths...>
+usage: ingest_seed.py <ID> <x> [--also C16,C13] [--recheck] [test paths...]
 Steps (all in a scratch copy of /repo under /tmp, removed afterwards):
-  1. patch applies to the current /repo tree            2. demo exits 0 on the clean copy
-  3. demo exits 1 on the patched copy                   4. the given tests pass on the patched copy (same failures as clean)
-  5. run ./check <ID> quick against the patched copy and record what it reports
+  1. patch applies to the current /repo tree (patch.rebased.diff is used when the original no longer applies because of a
+     later fix: commit)                                   2. demo exits 0 on the clean copy
+  3. demo exits 1 on the patched copy                     4. the given tests pass on the patched copy
+  5. run ./check <P> quick against the patched copy for the seed's own property and every property given with --also,
+     and record what each reports (caught = exit 1 with a VIOLATION line)
+--recheck repeats only step 5 (after the checks were extended) and keeps the recorded results of steps 1-4.
 """
-import json, os, shutil, subprocess, sys, tempfile, time
+import json, os, shutil, subprocess, sys, tempfile
 
-ID, X = sys.argv[1], sys.argv[2]
-TESTS = sys.argv[3:]
-src = "/tmp/seeds/%s/%s" % (ID, X)
+args = sys.argv[1:]
+ID, X = args[0], args[1]
+rest = args[2:]
+also, recheck, TESTS = [], False, []
+i = 0
+while i < len(rest):
+    if rest[i] == "--also":
+        also = [p for p in rest[i + 1].split(",") if p]
+        i += 2
+    elif rest[i] == "--recheck":
+        recheck = True
+        i += 1
+    else:
+        TESTS.append(rest[i])
+        i += 1
+src = "/verif/seeded_inbox/%s/%s" % (ID, X)
 if not os.path.isdir(src):
-    src = "/verif/seeded_inbox/%s/%s" % (ID, X)
+    src = "/tmp/seeds/%s/%s" % (ID, X)
 dst = "/verif/seeded/%s-%s" % (ID, X)
 PY = "/venv/bin/python"
+claimed = {c["property_id"] for c in json.load(open("/verif/MANIFEST.json"))["checks"]}
 
 
 def run(cmd, cwd, timeout=3000):
@@ -23,43 +40,65 @@ def run(cmd, cwd, timeout=3000):
     return p.returncode, (p.stdout + p.stderr)
 
 
-meta = {"property": ID, "seed": X, "ran": []}
+os.makedirs(dst, exist_ok=True)
+for f in ("patch.diff", "demo.py", "notes.md"):
+    if os.path.exists(os.path.join(src, f)) and not (f == "patch.diff" and os.path.exists(os.path.join(dst, f))):
+        shutil.copy(os.path.join(src, f), dst)
+meta_path = os.path.join(dst, "meta.json")
+meta = json.load(open(meta_path)) if os.path.exists(meta_path) else {}
+meta.update({"property": ID, "seed": X})
+meta.setdefault("ran", [])
+if not recheck:
+    meta["ran"] = []
+patch = os.path.join(dst, "patch.rebased.diff") if os.path.exists(os.path.join(dst, "patch.rebased.diff")) else os.path.join(dst, "patch.diff")
+meta["patch_used"] = os.path.basename(patch)
 work = tempfile.mkdtemp(prefix="seedchk_", dir="/tmp")
 try:
     clean, patched = os.path.join(work, "clean"), os.path.join(work, "patched")
     for d in (clean, patched):
         os.makedirs(d)
         subprocess.run("git -C /repo archive HEAD | tar -x -C %s" % d, shell=True, check=True)
-    rc, out = run("patch -p1 -s < %s/patch.diff" % src, patched)
+    rc, out = run("patch -p1 -s < %s" % patch, patched)
     meta["patch_applies"] = rc == 0
     if rc != 0:
         meta["patch_error"] = out[-500:]
     else:
-        rc0, out0 = run("%s %s/demo.py" % (PY, src), clean, 600)
-        rc1, out1 = run("%s %s/demo.py" % (PY, src), patched, 600)
-        meta["demo_clean_exit"], meta["demo_patched_exit"] = rc0, rc1
-        meta["demo_patched_tail"] = out1[-600:]
-        meta["ran"].append("demo.py on clean copy (exit %d) and patched copy (exit %d)" % (rc0, rc1))
-        if TESTS:
-            cmd = "%s -m pytest -q -p no:cacheprovider --timeout=900 -x -n 4 -k 'not grpc' %s 2>&1 | tail -3" % (PY, " ".join(TESTS))
-            rct, outt = run(cmd, patched, 3000)
-            meta["tests_cmd"] = cmd
-            meta["tests_patched_tail"] = outt[-400:]
-            meta["ran"].append("pytest (non-gRPC) on patched copy: " + outt.strip().splitlines()[-1][:200] if outt.strip() else "no output")
-        env = dict(os.environ, VERIF_REPO=patched, VERIF_EVIDENCE_DIR=os.path.join(work, "ev"))
-        p = subprocess.run(["./check", ID, "quick"], cwd="/verif", env=env, capture_output=True, text=True, timeout=3000)
-        meta["check_exit"] = p.returncode
-        meta["check_lines"] = [l for l in p.stdout.splitlines() if l.startswith(("VIOLATION", "KNOWN", "# " + ID))][:8]
-        meta["ran"].append("VERIF_REPO=<patched copy> ./check %s quick -> exit %d" % (ID, p.returncode))
+        meta.pop("patch_error", None)
+        if not recheck or "demo_patched_exit" not in meta:
+            demo = os.path.join(dst, "demo.py")
+            rc0, out0 = run("%s %s" % (PY, demo), clean, 900)
+            rc1, out1 = run("%s %s" % (PY, demo), patched, 900)
+            meta["demo_clean_exit"], meta["demo_patched_exit"] = rc0, rc1
+            meta["demo_patched_tail"] = out1[-600:]
+            meta["ran"].append("demo.py on clean copy (exit %d) and patched copy (exit %d)" % (rc0, rc1))
+            if TESTS:
+                cmd = "%s -m pytest -q -p no:cacheprovider --timeout=900 -n 4 -k 'not grpc' %s 2>&1 | tail -3" % (PY, " ".join(TESTS))
+                rcc, outc = run(cmd, clean, 3000)
+                rct, outt = run(cmd, patched, 3000)
+                meta["tests_cmd"] = cmd
+                meta["tests_clean_tail"] = outc[-300:]
+                meta["tests_patched_tail"] = outt[-300:]
+                meta["ran"].append("pytest (non-gRPC) on clean copy: %s | on patched copy: %s" % (
+                    (outc.strip().splitlines() or ["no output"])[-1][:150], (outt.strip().splitlines() or ["no output"])[-1][:150]))
+        meta["checks"] = {}
+        for pid in [ID] + [p for p in also if p != ID]:
+            if pid not in claimed:
+                meta["checks"][pid] = {"exit": None, "note": "property not claimed (not_applicable): no check to run"}
+                continue
+            env = dict(os.environ, VERIF_REPO=patched, VERIF_EVIDENCE_DIR=os.path.join(work, "ev"))
+            p = subprocess.run(["./check", pid, "quick"], cwd="/verif", env=env, capture_output=True, text=True, timeout=6000)
+            lines = [l for l in p.stdout.splitlines() if l.startswith(("VIOLATION", "KNOWN", "# " + pid, "# undecided", "# open"))][:8]
+            meta["checks"][pid] = {"exit": p.returncode, "lines": [l[:300] for l in lines]}
+        meta["caught_by"] = sorted(p for p, r in meta["checks"].items() if r.get("exit") == 1)
+        meta["check_exit"] = (meta["checks"].get(ID) or {}).get("exit")
+        meta["ran"] = [r for r in meta["ran"] if not r.startswith("VERIF_REPO=")]
+        meta["ran"].append("VERIF_REPO=<patched copy> ./check <P> quick for P in %s -> caught by %s" % (
+            ",".join(meta["checks"]), ",".join(meta["caught_by"]) or "none"))
 finally:
     shutil.rmtree(work, ignore_errors=True)
 ok = meta.get("patch_applies") and meta.get("demo_clean_exit") == 0 and meta.get("demo_patched_exit") == 1
 meta["confirmed"] = bool(ok)
 if os.path.exists(src + "/notes.md"):
     meta["needs"] = open(src + "/notes.md").read()[:1500]
-os.makedirs(dst, exist_ok=True)
-for f in ("patch.diff", "demo.py", "notes.md"):
-    if os.path.exists(os.path.join(src, f)):
-        shutil.copy(os.path.join(src, f), dst)
-json.dump(meta, open(os.path.join(dst, "meta.json"), "w"), indent=1)
-print(ID, X, "confirmed" if ok else "NOT CONFIRMED", "check_exit", meta.get("check_exit"), meta.get("check_lines", [])[:2])
+json.dump(meta, open(meta_path, "w"), indent=1)
+print(ID, X, "confirmed" if ok else "NOT CONFIRMED", "caught_by", meta.get("caught_by"), {k: v.get("exit") for k, v in meta.get("checks", {}).items()})
